@@ -516,6 +516,18 @@ class SymFloat:
     def __ceil__(self):
         return self._toint(z3.RTP(), lambda x: -z3.ToInt(-x))
 
+    def __round__(self, ndigits=None):
+        """round(x): to the nearest integer, ties to even (python 3); round(x, n) is not modelled"""
+        if ndigits is not None:
+            raise E.Unsupported('round(x, ndigits) of a symbolic float')
+        if self.ieee:
+            return SymInt(z3.fpToSBV(z3.RNE(), self.term, z3.BitVecSort(BVW)))
+        x = self.term
+        fl = z3.ToInt(x)
+        frac = x - z3.ToReal(fl)
+        half = z3.RealVal('1/2')
+        return SymInt(z3.If(frac < half, fl, z3.If(frac > half, fl + 1, z3.If(fl % 2 == 0, fl, fl + 1))))
+
     def __int__(self):
         raise E.Unsupported('int() of a symbolic float reached C code (missing shadow)')
 
